@@ -123,6 +123,17 @@ theorem corresponding_lineno_spec (t : List (Nat × Nat)) (hm : Monotone t) (ℓ
 example : correspondingLineno [(3, 2), (7, 5), (4, 9)] 8 = 7 ∧ correspondingLineno [(3, 2), (7, 5)] 1 = 1 ∧
     correspondingLineno [(3, 2), (7, 5), (4, 9)] 100 = 4 := by decide
 
+/-- **generated_table_lookup**: the two previous facts composed — in the table produced by ANY op sequence, every code
+    line from an entry's code line up to (excluding) the next entry's code line is answered with that entry's template line -/
+theorem generated_table_lookup (ops : List Op) (a : List (Nat × Nat)) (tl cl : Nat) (b : List (Nat × Nat))
+    (h : (run init ops).debugInfo = a ++ (tl, cl) :: b) (ℓ : Nat) (hle : cl ≤ ℓ)
+    (hnext : ∀ q, b.head? = some q → ℓ < q.2) :
+    correspondingLineno (run init ops).debugInfo ℓ = tl :=
+  (corresponding_lineno_spec _ (debug_info_monotone ops).1 ℓ).1 a tl cl b h hle hnext
+
+example : (run init (writeline "a".toList none 0 ++ writeline "b".toList (some 3) 0 ++ writeline "c".toList none 0 ++
+    writeline "d".toList (some 7) 1)).debugInfo = [] ++ (3, 2) :: [(7, 5)] := by decide
+
 /-- **debug_info_roundtrip**: decoding the `debug_info` string of any table gives the table back -/
 theorem debug_info_roundtrip (t : List (Nat × Nat)) : decode (encode t) = some t := decode_encode t
 
